@@ -68,6 +68,7 @@ class World:
         self.reads = 0
         self.timeout = None
         self.silence = 0
+        self.cancelled_reads = 0
 
 
 WORLD = World()
@@ -89,6 +90,61 @@ class FakeTime:
         WORLD.now += t
 
 
+class NoData:
+    """Awaited by the byte-level transport (ByteFeeder) when the socket has nothing to deliver for `seconds`.
+    It travels up the await chain to the innermost wait_for (which may time out and cancel the read, exactly as
+    asyncio.wait_for does) or, outside any wait_for, to the driver (which lets the time pass)."""
+
+    def __init__(self, feeder, seconds):
+        self.feeder = feeder
+        self.seconds = seconds
+
+    def __await__(self):
+        yield self
+
+
+class WaitFor:
+    """asyncio.wait_for(coro, timeout): await `coro`; if it is still waiting for input when `timeout` seconds have
+    passed, CANCEL it (CancelledError thrown at its suspension point) and raise TimeoutError.  With the message-level
+    FakeConn the scripted reader raises TimeoutError itself (it knows how long the silence lasts): WORLD.timeout."""
+
+    def __init__(self, coro, timeout):
+        self.coro = coro
+        self.timeout = timeout
+
+    def __await__(self):
+        WORLD.timeout = self.timeout
+        left = self.timeout
+        it = self.coro.__await__()
+        send = None
+        try:
+            while True:
+                try:
+                    y = it.send(send)
+                except StopIteration as e:
+                    return e.value
+                send = None
+                if isinstance(y, NoData):
+                    if left is not None and y.seconds > left:
+                        WORLD.now += left
+                        y.feeder.pause_left = y.seconds - left
+                        WORLD.cancelled_reads += 1
+                        try:
+                            it.throw(FakeAsyncio.CancelledError())
+                        except FakeAsyncio.CancelledError:
+                            pass
+                        except StopIteration:
+                            pass
+                        raise TimeoutError()
+                    WORLD.now += y.seconds
+                    if left is not None:
+                        left -= y.seconds
+                else:
+                    send = yield y
+        finally:
+            WORLD.timeout = None
+
+
 class FakeAsyncio:
     TimeoutError = TimeoutError
     CancelledError = type('CancelledError', (BaseException,), {})
@@ -102,13 +158,8 @@ class FakeAsyncio:
         await Yield()
 
     @staticmethod
-    async def wait_for(coro, timeout):
-        # the scripted reader decides whether the wait times out: it knows how long the current silence lasts
-        WORLD.timeout = timeout
-        try:
-            return await coro
-        finally:
-            WORLD.timeout = None
+    def wait_for(coro, timeout):
+        return WaitFor(coro, timeout)
 
     @staticmethod
     def get_event_loop():
@@ -210,6 +261,83 @@ class FakeConn:
         return None
 
 
+class ByteFeeder:
+    """loop.sock_recv_into for the byte-level transport: a list of ('data', bytes) | ('pause', seconds) | ('eof',)
+    items; a pause makes the reader wait (NoData), data is delivered at most len(view) bytes at a time."""
+
+    def __init__(self, items):
+        self.items = list(items)
+        self.buf = b''
+        self.pause_left = 0
+        self.delivered = 0
+
+    async def sock_recv_into(self, io, view):
+        while True:
+            if self.pause_left > 0:
+                s, self.pause_left = self.pause_left, 0
+                await NoData(self, s)     # a cancelling wait_for puts the rest of the pause back into pause_left
+                continue
+            if self.buf:
+                n = min(len(view), len(self.buf))
+                view[:n] = self.buf[:n]
+                self.buf = self.buf[n:]
+                self.delivered += n
+                return n
+            if not self.items:
+                return 0
+            ev = self.items.pop(0)
+            if ev[0] == 'pause':
+                self.pause_left = ev[1]
+            elif ev[0] == 'data':
+                self.buf += bytes(ev[1])
+            else:
+                return 0
+
+
+class ByteConn(connmod.Connection):
+    """The REAL Connection (reader_async, _reader_async and everything they call are inherited unchanged) over a
+    ByteFeeder; only the OS side is replaced: no socket, writes are recorded."""
+    direction = 'outgoing'
+
+    def __init__(self, peer, feeder, msg_size=4096):
+        self._peer_obj = peer
+        self.feeder = feeder
+        self.io = object()
+        self.msg_size = msg_size
+        self.peer = '127.0.0.2'
+        self.local = '127.0.0.1'
+        self.id = 1
+        self.defensive = False
+        self.established = False
+        self._rpoller = {}
+        self._wpoller = {}
+        connmod.asyncio = type('A', (), {'get_event_loop': staticmethod(lambda: feeder), 'CancelledError': FakeAsyncio.CancelledError,
+                                         'TimeoutError': TimeoutError})
+
+    def session(self):
+        return 'bytes-1'
+
+    def name(self):
+        return 'bytes-1 127.0.0.1-127.0.0.2'
+
+    def fd(self):
+        return 7
+
+    def close(self):
+        if self.io is not None:
+            WORLD.closed += 1
+        self.io = None
+
+    async def writer_async(self, data):
+        if self.io is None:
+            return
+        WORLD.written.append((self._peer_obj.fsm.state.name, WORLD.now, bytes(data)))
+
+    def notification(self, code, subcode, message):
+        WORLD.written.append(('incoming-refused', WORLD.now, bytes([code, subcode])))
+        return None
+
+
 class FakeProcesses:
     terminate_on_error = False
 
@@ -261,7 +389,10 @@ async def _fake_connect(self):
         return True
     if result == 'refused':
         return False
-    self.connection = FakeConn(self.peer, script, fail_write_after)
+    if isinstance(script, ByteFeeder):
+        self.connection = ByteConn(self.peer, script)
+    else:
+        self.connection = FakeConn(self.peer, script, fail_write_after)
     return True
 
 
@@ -272,7 +403,9 @@ def drive(coro, max_steps=6000, between=None):
     """run a coroutine to completion; `between(step)` is called at every scheduling point"""
     try:
         while WORLD.steps < max_steps:
-            coro.send(None)
+            y = coro.send(None)
+            if isinstance(y, NoData):    # the transport waits outside any wait_for: time passes
+                WORLD.now += y.seconds
             WORLD.steps += 1
             if between is not None:
                 between(WORLD.steps)
